@@ -2,7 +2,9 @@ package taskfile
 
 import (
 	"fmt"
+	"maps"
 	"os"
+	"slices"
 
 	"github.com/joho/godotenv"
 
@@ -30,9 +32,11 @@ func Dotenv(vars *ast.Vars, tf *ast.Taskfile, dir string) (*ast.Vars, error) {
 		if err != nil {
 			return nil, fmt.Errorf("error reading env file %s: %w", dotEnvPath, err)
 		}
-		for key, value := range envs {
+		// The file was read into a Go map: add its entries in a fixed order, so
+		// that entries referring to each other resolve the same way on every load
+		for _, key := range slices.Sorted(maps.Keys(envs)) {
 			if _, ok := env.Get(key); !ok {
-				env.Set(key, ast.Var{Value: value})
+				env.Set(key, ast.Var{Value: envs[key]})
 			}
 		}
 	}
